@@ -284,7 +284,73 @@ impl Leg for PyAcgtLoop {
     }
 }
 
+/// many codes decoded one after the other on ONE Python object: families of codes that share their low (or
+/// high) digits, repeats, extremes - per-object memo tables keyed by a part of the code
+#[derive(Clone, Debug, Serialize, Deserialize)]
+pub struct ManyCodes {
+    pub k: usize,
+    pub codes: Vec<u64>,
+}
+
+pub struct PyAcgtMany;
+impl Leg for PyAcgtMany {
+    type Case = ManyCodes;
+    const NAME: &'static str = "python-to-acgt-one-object";
+    fn strategy(_tier: Tier) -> BoxedStrategy<ManyCodes> {
+        prop_oneof![1 => 1usize..=31, 2 => 16usize..=31]
+            .prop_flat_map(|k| {
+                let top = model::pow4(k) - 1;
+                // a base code and variants of it: other leading digits, other trailing digits, one digit changed
+                let fam = (0..=top, proptest::collection::vec((0u8..4, 0u32..62, any::<u64>()), 1..=12)).prop_map(move |(x, vs)| {
+                    let mut out = vec![x];
+                    for (kind, bit, r) in vs {
+                        let b = bit.min(2 * k as u32 - 1);
+                        let lowmask = (1u64 << b) - 1;
+                        out.push(match kind {
+                            0 => ((x & lowmask) | (r & !lowmask)) & top, // same low bits, other leading digits
+                            1 => ((x & !lowmask) | (r & lowmask)) & top, // same leading digits, other low bits
+                            2 => (x ^ (1u64 << b)) & top,
+                            _ => x,
+                        });
+                    }
+                    out
+                });
+                (Just(k), proptest::collection::vec(fam, 1..=4).prop_map(|f| f.concat()))
+            })
+            .prop_map(|(k, codes)| ManyCodes { k, codes })
+            .boxed()
+    }
+    fn check(c: &ManyCodes) -> Verdict {
+        let mut v = Verdict::new();
+        v.class("python");
+        v.class_if(c.k >= 22, "k>=22");
+        v.nontrivial = c.codes.len() >= 3;
+        match crate::pyworker::ask(&serde_json::json!({"op": "acgt_many", "k": c.k, "codes": c.codes})) {
+            Err(e) => crate::pyworker::record_error(&mut v, e),
+            Ok(r) => {
+                let rows = r["ok"].as_array().cloned().unwrap_or_default();
+                if rows.len() != c.codes.len() {
+                    v.fail("python-worker", format!("python answered {}", crate::util::trunc(&r.to_string(), 200)));
+                    return v;
+                }
+                for (i, (x, row)) in c.codes.iter().zip(rows.iter()).enumerate() {
+                    let want = String::from_utf8(model::decode(*x, c.k)).unwrap();
+                    for (j, what) in ["KmerGenerator", "MinimiserGenerator"].iter().enumerate() {
+                        if row[j].as_str() != Some(&want) {
+                            v.fail("python-to-acgt-one-object", format!("call {} on one {} object: to_acgt({}) = {:?}, the code decodes to {:?} (k={}; codes decoded before: {:?})", i, what, x, row[j], want, c.k, &c.codes[..i.min(6)]));
+                            return v;
+                        }
+                    }
+                }
+            }
+        }
+        v
+    }
+}
+
 pub fn run(ctx: &mut Ctx) {
+    let n = ctx.share(ctx.tier.pick(12_000, 200_000));
+    ctx.run_leg::<PyAcgtMany>(n, false, 500);
     let n = ctx.share(ctx.tier.pick(30_000, 600_000));
     ctx.run_leg::<RawPairs>(n, false, 2000);
     let n = ctx.share(ctx.tier.pick(12_000, 200_000));
@@ -316,6 +382,7 @@ pub fn replay(leg: &str, case: &serde_json::Value) -> Option<Result<Verdict, Str
         "codes-exhaustive" | "codes-sampled" => Some(crate::engine::replay_leg::<Codes>(case)),
         "seq-symmetry" => Some(crate::engine::replay_leg::<Seqs>(case)),
         "python-to-acgt" => Some(crate::engine::replay_leg::<PyAcgt>(case)),
+        "python-to-acgt-one-object" => Some(crate::engine::replay_leg::<PyAcgtMany>(case)),
         "raw-bytes-pairs" => Some(crate::engine::replay_leg::<RawPairs>(case)),
         "python-to-acgt-while-iterating" => Some(crate::engine::replay_leg::<PyAcgtLoop>(case)),
         "cold-start-threads" => Some(crate::engine::replay_leg::<Cold>(case)),
